@@ -355,13 +355,14 @@ pub fn run_check(replay: Option<Value>) -> i32 {
     // wherever xend falls relative to the step sequence: default options, 150 (600) end points per
     // method and direction, also intervals that cross zero and end near it
     {
-        let nx = if thorough { 600 } else { 150 };
+        let nx = if thorough { 600 } else { 120 };
         let sdims = vec![
             dim("method", &M6.iter().map(|m| mname(*m)).collect::<Vec<_>>()),
             dim("direction", &["forward", "backward"]),
             dim("x0", &[0.0, -3.0]),
             dim("k", &(0..nx).collect::<Vec<_>>()),
             dim("output", &["plain", "t_eval = [x0, mid, xend] + dense"]),
+            dim("rtol", &[1e-3, 1e-6, 1e-9]),
         ];
         lattice(&mut rep, "sweep", &sdims, only.as_deref(), |key, idx| {
             let m = M6[idx[0]];
@@ -371,7 +372,8 @@ pub fn run_check(replay: Option<Value>) -> i32 {
             let len = if idx[2] == 0 { 10.0 + 5.0 * idx[3] as f64 / nx as f64 } else { 3.0 + 0.004 * (idx[3] + 1) as f64 };
             let xend = x0 + dir * len;
             let p = problem(1, x0, dir * 2.0 * std::f64::consts::PI * 1.5 / 1.0);
-            let mut c = Cfg::new(m, x0, xend, &p.y0);
+            let rt = [1e-3, 1e-6, 1e-9][idx[5]];
+            let mut c = Cfg::new(m, x0, xend, &p.y0).tol(rt, rt * 1e-3);
             if idx[4] == 1 {
                 c.t_eval = Some(vec![x0, 0.5 * (x0 + xend), xend]);
                 c.dense = true;
